@@ -20,6 +20,8 @@ enum End {
     Close,
     Reset,
     Stall,
+    /// after the scripted bytes: one more byte every 60 ms for 12 s, never closing
+    Drip,
 }
 
 #[derive(Clone, Debug)]
@@ -77,6 +79,17 @@ fn serve(listener: TcpListener, rx: mpsc::Receiver<Script>, done: mpsc::Sender<(
                     libc::setsockopt(s.as_raw_fd(), libc::SOL_SOCKET, libc::SO_LINGER, &lg as *const _ as *const libc::c_void, std::mem::size_of::<libc::linger>() as u32);
                 }
                 drop(s);
+            }
+            End::Drip => {
+                // a peer that keeps the connection "alive" without ever finishing:
+                // the client's deadline bounds the WHOLE exchange, not each read
+                let t0 = Instant::now();
+                while t0.elapsed() < Duration::from_secs(12) {
+                    if s.write_all(b" ").is_err() || s.flush().is_err() {
+                        break;
+                    }
+                    std::thread::sleep(Duration::from_millis(60));
+                }
             }
             End::Stall => {
                 // keep the socket open until the client gives up
@@ -215,7 +228,7 @@ pub fn run(tier: Tier, seed: u64) -> i32 {
         tier,
         seed,
         "fault_enumeration",
-        "scripted loopback peers: status lines (valid, odd spacing, missing reason, non-numeric, overflow), header sets (duplicates, mixed case, no colon, huge), Content-Length in {absent, exact, larger, smaller, non-numeric, huge}, bodies 0..64KiB; delivered whole, in 1-byte writes, and cut at byte offsets (every offset for responses <= 400 bytes, sampled incl. header/body boundary otherwise); then close, RST or stall. distinct = distinct (response shape, cut class, ending) triples",
+        "scripted loopback peers: status lines (valid, odd spacing, missing reason, non-numeric, overflow), header sets (duplicates, mixed case, no colon, huge), Content-Length in {absent, exact, larger, smaller, non-numeric, huge}, bodies 0..64KiB; delivered whole, in 1-byte writes, and cut at byte offsets (every offset for responses <= 400 bytes, sampled incl. header/body boundary otherwise); then close, RST, stall, or a slow drip of one byte every 60 ms for 12 s (the timeout bounds the whole exchange). distinct = distinct (response shape, cut class, ending) triples",
     );
     let mut rng = Rng::new(seed ^ 0xC16);
     let listener = TcpListener::bind("127.0.0.1:0").expect("bind");
@@ -245,7 +258,7 @@ pub fn run(tier: Tier, seed: u64) -> i32 {
         let res = rt().block_on(async { tokio::time::timeout(timeout + slack + Duration::from_secs(5), h).await });
         let elapsed = t0.elapsed();
         // wait for the peer thread to finish this connection
-        let _ = drx.recv_timeout(Duration::from_secs(12));
+        let _ = drx.recv_timeout(Duration::from_secs(16));
         rep.eval();
         let cut_class = match cut {
             None => "whole".to_string(),
@@ -293,7 +306,7 @@ pub fn run(tier: Tier, seed: u64) -> i32 {
                             rep.fail("unframed-accepted", "Ok returned although no header terminator was ever sent", replay);
                             return;
                         };
-                        if matches!(end, End::Stall) {
+                        if matches!(end, End::Stall | End::Drip) {
                             rep.fail("stall-accepted", "Ok returned although the peer never closed", replay.clone());
                         }
                         match sent.status {
@@ -366,6 +379,14 @@ pub fn run(tier: Tier, seed: u64) -> i32 {
             exchange(&mut rep, &mut rng, &g, Some(c), End::Stall, false);
             exchanges += 1;
         }
+    }
+    // slow-drip peers: bytes keep arriving, the exchange never ends
+    for k in 0..tier.pick(4, 30) {
+        let g = gen_response(&mut rng, tier);
+        let hdr_end = g.text.windows(4).position(|w| w == b"\r\n\r\n").map(|p| p + 4).unwrap_or(g.text.len());
+        let c = [0usize, hdr_end / 2, hdr_end, g.text.len().saturating_sub(1)][k % 4];
+        exchange(&mut rep, &mut rng, &g, Some(c), End::Drip, false);
+        exchanges += 1;
     }
     drop(tx);
     rep.set("exchanges_by_class", json!(by_class));
